@@ -177,7 +177,7 @@ func lifeConcScenarios(prop string) []*Scenario {
 func registerLife(prop, title string) {
 	mc.Register(&mc.Check{
 		Prop:        prop,
-		Rule:        "(a) configurations: every producer form set (<=2 of 21 templates) x consumer shape x lifetime pairing of the C04 enumeration, judged by the lifetime oracle; (b) histories: every sequence to depth 3 (quick) / 4 (thorough) over {CreateScope(provider|scope), 14 resolutions by type/key/group, Close} on <=3 scopes of a 16-registration container covering all forms for all lifetimes, each completed by closing the provider; (c) schedules: 2-3 goroutines resolving colliding identities, preemption bound 2 (3 thorough); (d, C01) two providers built from one collection and alive together: every history to depth 4 (5) over {use p1, use p2, close p1, close p2}: one construction per singleton per provider, nothing created for one provider handed out by the other; (e, C01) singleton multi-output constructors with a nil output (nil interface return, nil result-object field) under every map-iteration order within deviation bound 2 from both base orders: one verdict, and if Build succeeds one construction and one instance; (f, C01) singletons looked up while Build runs: 3 singletons, all 64 dependency edge sets x injected {Provider, Scope} x targets x registration orders, lookups by the constructor itself and by a goroutine it starts (all schedules within the bound); (g, C02) an output of a scoped multi-output registration removed and registered again by another constructor, both resolved concurrently. Oracle: " + title + ". An outcome is the canonical observation string of one execution.",
+		Rule:        "(a) configurations: every producer form set (<=2 of 21 templates) x consumer shape x lifetime pairing of the C04 enumeration, judged by the lifetime oracle; (b) histories: every sequence to depth 3 (quick) / 4 (thorough) over {CreateScope(provider|scope), 14 resolutions by type/key/group, Close} on <=3 scopes of a 16-registration container covering all forms for all lifetimes, each completed by closing the provider; (c) schedules: 2-3 goroutines resolving colliding identities, preemption bound 2 (3 thorough); (d, C01) two providers built from one collection and alive together: every history to depth 4 (5) over {use p1, use p2, close p1, close p2}: one construction per singleton per provider, nothing created for one provider handed out by the other; (e, C01) singleton multi-output constructors with a nil output (nil interface return, nil result-object field) under every map-iteration order within deviation bound 2 from both base orders: one verdict, and if Build succeeds one construction and one instance; (f, C01) singletons looked up while Build runs: 3 singletons, all 64 dependency edge sets x injected {Provider, Scope} x targets x registration orders, lookups by the constructor itself and by a goroutine it starts (all schedules within the bound); (g, C02) an output of a scoped multi-output registration removed and registered again by another constructor, both resolved concurrently; (h, C02) initializer histories with collection edits after Build and an initializer depending on a later one; (i, C03) no invocation of a multi-output transient constructor serves two request sites. Oracle: " + title + ". An outcome is the canonical observation string of one execution.",
 		Assume:      []string{"instances are identified by the recorder (registration, invocation serial, output index) embedded in every value the harness constructors create"},
 		MinOutcomes: 10,
 		Jobs: func(tier string) []mc.Job {
